@@ -48,9 +48,11 @@ theorem ro_step (s : St) (hs : ROStable s) (o : Op) (ho : o.staysRO = true) :
     simp only [step, flushTick]
     split
     · exact ⟨rfl, hs⟩
-    · rename_i hw
-      have := hs.wc (by simpa using hw)
-      simp [this, hs]
+    · split
+      · exact ⟨rfl, hs⟩
+      · rename_i hw _
+        have := hs.wc (by simpa using hw)
+        simp [this, hs]
   | gc => simp [step, removeGarbage, hne, hs]
   | epoch e =>
     simp only [step, handleEpoch_ro s hm e]
@@ -62,6 +64,16 @@ theorem ro_step (s : St) (hs : ROStable s) (o : Op) (ho : o.staysRO = true) :
     subst h2
     exact setMode_ro s hs m h1
   | restart m => simp [Op.staysRO] at ho
+  | reopen => simp [Op.staysRO] at ho
+  | settle =>
+    simp only [step, flushTick]
+    split
+    · exact ⟨rfl, hs⟩
+    · split
+      · exact ⟨rfl, hs⟩
+      · rename_i hw _
+        have := hs.wc (by simpa using hw)
+        simp [this, hs]
 
 /-- **Every modifying request fails with the read-only error** (only the REPORTED mode matters here) -/
 theorem ro_rejects (s : St) (hm : isReadOnly s.mode = true) (o : Op) (ho : o.modifying = true) :
@@ -97,6 +109,182 @@ theorem ro_frame (ops : List Op) : ∀ (s : St), ROStable s → (∀ o ∈ ops, 
 theorem ro_frame_prefix (s : St) (hs : ROStable s) (pre post : List Op) (h : ∀ o ∈ pre ++ post, o.staysRO = true) :
     (run s pre).persist = s.persist :=
   (ro_frame pre s hs (fun o ho => h o (by simp [ho]))).1
+
+/-! ### the period over the engine's maintenance cycle (close, open again without `Init`) -/
+
+/-- what a read-only period looks like once the components have been closed and opened again WITHOUT `Init`
+(`StorageEngine.BlockExecution` / `ResumeExecution`): the shard still reports a read-only mode; blobstor, metabase
+handle and write-cache may be opened for writing; what keeps the data still is that every request is refused on the
+REPORTED mode and that the write-cache's background flush loop either sees a read-only cache or is not running. -/
+structure ROQuiet (s : St) : Prop where
+  mode : isReadOnly s.mode = true
+  wc : s.hasWC = true → isReadOnly s.wcMode = true ∨ s.wcLoop = false
+
+theorem ROStable.quiet {s : St} (hs : ROStable s) : ROQuiet s := ⟨hs.mode, fun h => Or.inl (hs.wc h)⟩
+
+/-- operations of a read-only period that may follow a close/open cycle: everything except a restart, an injected
+failure and a switch to a mode WITHOUT metabase (that one flushes the cache into the blobstor the reopening left
+writable: `C14_counterexample`) -/
+def Op.staysQuiet : Op → Bool
+  | .setMode m f => isReadOnly m && !noMetabase m && f == .none
+  | .restart _ => false
+  | _ => true
+
+/-- **The close/open cycle keeps the period**: stored data as it was, and — because `cache.Open` does not start the
+flush loop (regenerated fact `wcOpen_startsFlushLoop = false`) — nothing is left running that could move it. -/
+theorem reopen_quiet (s : St) (hm : isReadOnly s.mode = true) :
+    (step s .reopen).1.persist = s.persist ∧ ROQuiet (step s .reopen).1 :=
+  ⟨rfl, ⟨hm, fun _ => Or.inr (by simp [step, reopen])⟩⟩
+
+/-- **What the model's `reopen` stands for**, regenerated from the source on every run: `StorageEngine.BlockExecution`
+closes every shard, `ResumeExecution` opens every shard again and neither initializes it nor applies its mode;
+`Shard.Open` opens the components and does nothing else; the write-cache's flush loop is started by `cache.Init`
+and neither by `cache.Open` nor by `cache.SetMode`. -/
+theorem maintenance_cycle_facts :
+    engineBlock_closesShards = true ∧ engineResume_opensShards = true ∧ engineResume_initsShards = false ∧
+    shardOpen_initsOrSetsMode = false ∧
+    wcInit_startsFlushLoop = true ∧ wcOpen_startsFlushLoop = false ∧ wcSetMode_startsFlushLoop = false :=
+  ⟨rfl, rfl, rfl, rfl, rfl, rfl, rfl⟩
+
+/-- a fault-free switch to a read-only mode WITH metabase, from any state of the (reopened) period: moves nothing
+and brings every component back to read-only -/
+theorem setMode_quiet (s : St) (hs : ROQuiet s) (m : Nat) (hm : isReadOnly m = true) (hn : noMetabase m = false) :
+    (setMode s m .none).1.persist = s.persist ∧ ROStable (setMode s m .none).1 := by
+  have hne := ro_ne_rw hm
+  have hm' : isRO m = true := hm
+  have hn' : noMeta m = false := hn
+  cases hw : s.hasWC
+  · simp [setMode, order, hw, hne, runComps, compSetMode, blobSetMode, metaSetMode_none, St.persist]
+    exact ⟨hm, hm, fun h => by simp [hw] at h⟩
+  · simp [setMode, order, hw, hne, runComps, compSetMode, blobSetMode, wcSetMode, metaSetMode_none, St.persist, hn']
+    exact ⟨hm, hm, fun _ => hm⟩
+
+/-- **Frame over the reopened period.**  Any operation — modifying request, read, GC pass, flush-worker pass, a tick
+of the real flush scheduler (`settle`), new-epoch handler, Restore, another close/open cycle, a switch to the
+read-only mode with metabase — leaves metabase, blobstor and write-cache content exactly as they were. -/
+theorem ro_quiet_step (s : St) (hs : ROQuiet s) (o : Op) (ho : o.staysQuiet = true) :
+    (step s o).1.persist = s.persist ∧ ROQuiet (step s o).1 := by
+  have hm := hs.mode
+  have hne := ro_ne_rw hm
+  have tick : (flushTick s) = s := by
+    simp only [flushTick]
+    split
+    · rfl
+    · split
+      · rfl
+      · rename_i hw hl
+        rcases hs.wc (by simpa using hw) with h | h
+        · simp [h]
+        · simp [h] at hl
+  cases o with
+  | put cn h => simp [step, put, hm, hs]
+  | get a => exact ⟨rfl, hs⟩
+  | head a => exact ⟨rfl, hs⟩
+  | exists_ a => exact ⟨rfl, hs⟩
+  | isLocked a => exact ⟨rfl, hs⟩
+  | delete cn ids => simp [step, deleteObjs, hm, hs]
+  | mark cn ids r => simp [step, markGarbage, hm, hs]
+  | inhumeCnr cn => simp [step, inhumeContainer, hm, hs]
+  | deleteCnr cn => simp [step, deleteContainer, hm, hs]
+  | revive cn id => simp [step, reviveObject, hm, hs]
+  | list => exact ⟨rfl, hs⟩
+  | select => exact ⟨rfl, hs⟩
+  | listCnr => exact ⟨rfl, hs⟩
+  | cnrInfo cn => exact ⟨rfl, hs⟩
+  | flush =>
+    simp only [step, flushWriteCache]
+    split
+    · exact ⟨rfl, hs⟩
+    · simp [hm, hs]
+  | flushTick =>
+    have : step s .flushTick = (s, .ok) := by simp only [step, tick]
+    rw [this]; exact ⟨rfl, hs⟩
+  | settle =>
+    have : step s .settle = (s, .ok) := by simp only [step, tick]
+    rw [this]; exact ⟨rfl, hs⟩
+  | gc => simp [step, removeGarbage, hne, hs]
+  | epoch e =>
+    simp only [step, handleEpoch_ro s hm e]
+    exact ⟨rfl, ⟨hm, hs.wc⟩⟩
+  | restore cn hs' => simp [step, restore, hm, hs]
+  | setMode m f =>
+    simp only [Op.staysQuiet, Bool.and_eq_true, beq_iff_eq, Bool.not_eq_true'] at ho
+    obtain ⟨⟨h1, h2⟩, h3⟩ := ho
+    subst h3
+    have := setMode_quiet s hs m h1 h2
+    exact ⟨this.1, this.2.quiet⟩
+  | restart m => simp [Op.staysQuiet] at ho
+  | reopen => exact reopen_quiet s hm
+
+/-- which operations a history of a read-only period may contain at a point where the components are known to be
+read-only (`st = true`: since the last switch no close/open cycle happened) or not -/
+def Op.okIn (st : Bool) : Op → Bool
+  | .setMode m f => isReadOnly m && f == .none && (st || !noMetabase m)
+  | .restart _ => false
+  | _ => true
+
+/-- a switch to a read-only mode brings the components to it, a close/open cycle opens them for writing -/
+def Op.nextStable (st : Bool) : Op → Bool
+  | .reopen => false
+  | .setMode .. => true
+  | _ => st
+
+def legalPeriod : Bool → List Op → Bool
+  | _, [] => true
+  | st, o :: os => o.okIn st && legalPeriod (o.nextStable st) os
+
+theorem ro_period_step (s : St) (st : Bool) (hq : ROQuiet s) (hst : st = true → ROStable s) (o : Op)
+    (ho : o.okIn st = true) :
+    (step s o).1.persist = s.persist ∧ ROQuiet (step s o).1 ∧ (o.nextStable st = true → ROStable (step s o).1) := by
+  cases st
+  · -- the components may be writable
+    by_cases hsw : ∃ m f, o = .setMode m f
+    · obtain ⟨m, f, rfl⟩ := hsw
+      simp only [Op.okIn, Bool.and_eq_true, beq_iff_eq, Bool.false_or, Bool.not_eq_true'] at ho
+      obtain ⟨⟨h1, h2⟩, h3⟩ := ho
+      subst h2
+      have := setMode_quiet s hq m h1 h3
+      exact ⟨this.1, this.2.quiet, fun _ => this.2⟩
+    · have hq' : o.staysQuiet = true := by
+        cases o <;> simp_all [Op.staysQuiet, Op.okIn]
+      have := ro_quiet_step s hq o hq'
+      refine ⟨this.1, this.2, fun h => ?_⟩
+      cases o <;> simp_all [Op.nextStable]
+  · have hs := hst rfl
+    by_cases hre : o = .reopen
+    · subst hre
+      have := reopen_quiet s hs.mode
+      exact ⟨this.1, this.2, fun h => by simp [Op.nextStable] at h⟩
+    · have ho' : o.staysRO = true := by
+        cases o <;> simp_all [Op.staysRO, Op.okIn]
+      have := ro_step s hs o ho'
+      exact ⟨this.1, this.2.quiet, fun _ => this.2⟩
+
+/-- **C14 over the maintenance cycle.**  For every state of a read-only period and EVERY sequence of operations
+issued during it — all requests, reads, background jobs (GC pass, flush-worker pass, ticks of the real flush
+scheduler, new-epoch handler), Restore, switches between read-only modes, and close/open cycles without `Init` at
+any point — the stored data is unchanged after the sequence (hence after every prefix), PROVIDED no switch to a mode
+without metabase follows a close/open cycle before the components have been switched back to a read-only mode with
+metabase (`legalPeriod`; without the proviso the statement is false for the code: `C14_counterexample`). -/
+theorem ro_period_frame (ops : List Op) : ∀ (s : St) (st : Bool), ROQuiet s → (st = true → ROStable s) →
+    legalPeriod st ops = true → (run s ops).persist = s.persist ∧ ROQuiet (run s ops) := by
+  induction ops with
+  | nil => intro s st hq _ _; exact ⟨rfl, hq⟩
+  | cons o os ih =>
+    intro s st hq hst hl
+    simp only [legalPeriod, Bool.and_eq_true] at hl
+    have h1 := ro_period_step s st hq hst o hl.1
+    have h2 := ih (step s o).1 (o.nextStable st) h1.2.1 h1.2.2 hl.2
+    simp only [run, List.foldl] at h2 ⊢
+    exact ⟨h2.1.trans h1.1, h2.2⟩
+
+/-- the statement without the proviso: close/open cycles anywhere among the operations of a read-only period -/
+def Op.inPeriod : Op → Bool
+  | .reopen => true
+  | o => o.staysRO
+
+def C14_full : Prop :=
+  ∀ (s : St) (ops : List Op), ROStable s → (∀ o ∈ ops, o.inPeriod = true) → (run s ops).persist = s.persist
 
 /-! ### how a read-only period starts, and reads during it -/
 
@@ -194,5 +382,29 @@ example : (run (run {} [.put 1 { id := 1, typ := .regular }]) [.delete 1 [1], .g
 example : (run exampleRO [.delete 1 [1], .gc, .flushTick, .epoch 9, .setMode degradedReadOnly .none,
     .put 1 { id := 3, typ := .regular }, .restore 1 [{ id := 4, typ := .regular }]]).persist = exampleRO.persist := by decide
 example : Consistent ({} : St) := ⟨rfl, by decide, by decide, fun _ => rfl⟩
+
+/-- **The full statement is false for the current code** (known finding C14-reopen-switch-flush): a read-only shard
+with an object in its write-cache goes through the maintenance cycle (every component is opened for writing again,
+the mode is not re-applied) and is then switched to degraded-read-only — `cache.SetMode` flushes before entering a
+mode without metabase, the blobstor accepts: the object moves from the cache to the blobstor although the shard
+reported a read-only mode all along. -/
+theorem C14_counterexample : ¬ C14_full := by
+  intro h
+  have := h exampleRO [.reopen, .setMode degradedReadOnly .none] ⟨by decide, by decide, fun _ => by decide⟩
+    (by intro o ho; simp only [List.mem_cons, List.mem_nil_iff, or_false] at ho; rcases ho with rfl | rfl <;> decide)
+  revert this
+  decide
+
+/-- the reopened period is inhabited by a state whose components really are writable -/
+example : ROQuiet (run exampleRO [.reopen]) ∧ (run exampleRO [.reopen]).blobRO = false ∧
+    (run exampleRO [.reopen]).wcMode = readWrite ∧ (run exampleRO [.reopen]).wc ≠ [] :=
+  ⟨⟨by decide, fun _ => Or.inr (by decide)⟩, by decide, by decide, by decide⟩
+/-- a flush-worker pass / scheduler tick WOULD move the cached object if the loop were running after the reopening -/
+example : (flushTick { run exampleRO [.reopen] with wcLoop := true }).persist ≠ (run exampleRO [.reopen]).persist := by decide
+example : legalPeriod true [.put 1 { id := 3, typ := .regular }, .reopen, .settle, .flushTick, .gc, .epoch 9,
+    .setMode readOnly .none, .setMode degradedReadOnly .none, .reopen, .settle] = true := by decide
+example : legalPeriod true [.reopen, .setMode degradedReadOnly .none] = false := by decide
+example : (run exampleRO [.reopen, .settle, .flushTick, .gc, .setMode readOnly .none]).persist = exampleRO.persist := by
+  decide
 
 end NeoFS.ShardMode
